@@ -77,14 +77,14 @@ func hasFail(fs []fail, kind string) bool {
 }
 
 var scripts = []string{"killed-replace", "price-drop-extend", "kill-twice-close", "challenge-cycle", "challenge-cycle", "exhaust-write-pool",
-	"fail-then-replace-alive", "upload-delete-close", "price-drop-all-extend"}
+	"fail-then-replace-alive", "upload-delete-close", "price-drop-all-extend", "duplicate-blobber-alloc", "tiny-validator-reward"}
 
 // the paths a property depends on most are scripted more often when that property is checked
 var scriptsMore = map[string][]string{
-	"C12": {"fail-then-replace-alive", "fail-then-replace-alive", "price-drop-all-extend", "upload-delete-close"},
+	"C12": {"fail-then-replace-alive", "fail-then-replace-alive", "price-drop-all-extend", "upload-delete-close", "tiny-validator-reward"},
 	"C14": {"upload-delete-close", "upload-delete-close", "fail-then-replace-alive"},
-	"C09": {"price-drop-all-extend", "price-drop-all-extend", "fail-then-replace-alive", "upload-delete-close"},
-	"C13": {"fail-then-replace-alive"},
+	"C09": {"price-drop-all-extend", "price-drop-all-extend", "fail-then-replace-alive", "upload-delete-close", "tiny-validator-reward", "tiny-validator-reward", "tiny-validator-reward"},
+	"C13": {"fail-then-replace-alive", "duplicate-blobber-alloc", "duplicate-blobber-alloc"},
 	"C24": {"free-out-of-order-replay"},
 }
 
